@@ -199,10 +199,10 @@ class CallMixin(object):
                 out.append(r)
                 continue
             out += self.ev_args(e, r.st, lambda s2, args, kw, star, r=r: self.run_ghost_at(
-                e, self.apply(s2, r.val, args, kw, e, star), args, kw))
+                e, self.apply(s2, r.val, args, kw, e, star), args, kw, target=r.val))
         return out
 
-    def run_ghost_at(self, e, out, args=(), kw=None):
+    def run_ghost_at(self, e, out, args=(), kw=None, target=None):
         """sidecar ghost statements attached to a call (contract.ghost_at): executed after the
         call returned normally, so the ghost update is exactly as path-sensitive as the real call"""
         c = self.contract
@@ -210,6 +210,8 @@ class CallMixin(object):
             return out
         f = e.func
         name = f.attr if isinstance(f, ast.Attribute) else (f.id if isinstance(f, ast.Name) else None)
+        if name is None and isinstance(f, ast.Subscript):
+            name = '$subscript_call'        # table[key](...)
         stmts = c.ghost_at.get(name) or []
         stmts_always = c.ghost_at.get((name or '') + '!') or []      # 'callee!': also when the call raised
         if not stmts and not stmts_always:
@@ -235,6 +237,8 @@ class CallMixin(object):
                     s2.env['kw_' + kname] = kval
                 if r.val is not None and r.val.ty != PY:
                     s2.env['call_result'] = r.val
+                if target is not None and target.ty != PY:
+                    s2.env['call_target'] = target      # the callable that was invoked (table[key](...))
                 val = self.sp(tree.value, s2)
                 if isinstance(tgt, ast.Name) and tgt.id in self.spec.ghosts:
                     st = self.ghost_set(st, tgt.id, val)
@@ -594,6 +598,13 @@ class CallMixin(object):
             c = self.find_method_contract(ty.cls, name)
             if c is None:
                 self.oos('method %s.%s is not under contract' % (ty.cls, name), node)
+            try:
+                static = (':' in c.qual and not c.qual.split(':')[1].startswith('$') and
+                          self.src.find(c.qual).is_staticmethod)
+            except Exception:
+                static = False
+            if static:      # @staticmethod reached through an instance: no receiver is passed
+                return self.call_contract(st, c, list(args), kw, node, None, star)
             return self.call_contract(st, c, [recv] + list(args), kw, node, recv, star)
         if ty == STR:
             return self.str_method(st, recv, name, args, kw, node)
@@ -1458,7 +1469,7 @@ class CallMixin(object):
 
     # ------------------------------------------------------------------ constructors
     def construct(self, st, qual, args, kw, node, star=None):
-        cname = qual.split(':')[1]
+        cname = qual.split(':')[1].split('.')[-1]      # nested classes are declared under their own name
         decl = self.spec.classes.get(cname)
         c = self.spec.contracts.get(qual + '.__init__')
         if decl is None or c is None:
